@@ -1,42 +1,4 @@
-/- Driver for C24: the Core model's line protocol (MvModel/CoreDrv.lean) where `put` and `update` run
-   through the REPAIRED capacity check of MvModel/Capacity.lean (`putR` / `updateR`); every other request
-   is the shared `drvStep`.  The two request parsers below are copies of the ones inside `drvStep`. -/
+/- Driver for C24: the Core model's line protocol (see MvModel/CoreDrv.lean for the requests); since
+   ed05539 the shared model contains the exact capacity check the C24 theorems are about. -/
 import MvModel.CoreDrv
-import MvModel.Capacity
-namespace Mv.Core
-
-def parsePutArgs (kv : List (String × String)) (ts : Int) : PutArgs :=
-  { ts := ts, uri := getS kv "uri", kind := getS kv "kind", track := getS kv "track",
-    tags := getL kv "tags", labels := getL kv "labels", role := getRole kv,
-    content := (getS kv "ct").getD "E", len := getN kv "len", plen := getN kv "plen",
-    emb := getEmb kv "emb", chunks := getChunks kv "chunks", ii := getB kv "ii",
-    st := getB kv "st" true, q := getB kv "q", nc := getN kv "nc", zstd := getB kv "z",
-    cdims := (getL kv "cdims").filterMap (·.toNat?) }
-
-def parseUpdArgs (kv : List (String × String)) : UpdArgs :=
-  let pl : Option (String × Nat × Nat × List ChunkArg) :=
-    if getB kv "pl" then some ((getS kv "ct").getD "E", getN kv "len", getN kv "plen", getChunks kv "chunks")
-    else none
-  { ts := getI kv "ts", uri := getS kv "uri", kind := getS kv "kind", track := getS kv "track",
-    tags := getL kv "tags", labels := getL kv "labels", role := getRole kv, payload := pl,
-    emb := getEmb kv "emb", ii := getB kv "ii", st := getB kv "st" true, q := getB kv "q",
-    nc := getN kv "nc", zstd := getB kv "z" }
-
-def drvStepR (m : Mem) (ws : List String) : Mem × String :=
-  match ws with
-  | "put" :: rest =>
-    let kv := kvs rest
-    match getI kv "ts" with
-    | none => (m, "bad-op")
-    | some ts =>
-      let r := stepR m (.put (parsePutArgs kv ts) (getTrace m kv))
-      (r.1.setWalSize (getN kv "ws" r.1.walSize), showOut r.2)
-  | "update" :: rest =>
-    let kv := kvs rest
-    let r := stepR m (.update (getN kv "id") (parseUpdArgs kv) (getTrace m kv))
-    (r.1.setWalSize (getN kv "ws" r.1.walSize), showOut r.2)
-  | _ => drvStep m ws
-
-end Mv.Core
-
-def main : IO Unit := Mv.runDriver Mv.Core.Mem.create Mv.Core.drvStepR
+def main : IO Unit := Mv.Core.coreMain
